@@ -185,6 +185,17 @@ def run_ground(rep, tier):
         case = f"proto{pi}"
         z = vs.zeros()
         out(f"{FN}.ContainerVSpace.zeros:{case}:CV-zeros", same_struct(x, z) and [l.term for l in leaves(z)] == [("zeros", l.term) for l in leaves(x)], f"zeros leaf-wise: {_terms(z)}")
+        def reorder(c):   # same vector, dict keys inserted in REVERSED order: a vector of the same space
+            if isinstance(c, dict):
+                return {k_: reorder(c[k_]) for k_ in reversed(list(c))}
+            if isinstance(c, (list, tuple)):
+                return type(c)(reorder(v) for v in c)
+            return c
+        yr = reorder(y)
+        sr = vs._add(x, yr)
+        out(f"{FN}.ContainerVSpace._add:{case}:CV-add-key-order", same_struct(x, sr) and [l.term for l in leaves(sr)] == [("+", a.term, b.term) for a, b in zip(leaves(x), leaves(y))],
+            "add pairs leaves BY KEY: a dict vector with another key insertion order is the same vector")
+        ipr = None
         s = vs._add(x, y)
         out(f"{FN}.ContainerVSpace._add:{case}:CV-add", same_struct(x, s) and [l.term for l in leaves(s)] == [("+", a.term, b.term) for a, b in zip(leaves(x), leaves(y))], "add leaf-wise")
         xo = mk(p, "xo", owned=True)
@@ -355,6 +366,32 @@ def jax_like_tangent(Sx, p):
     return mk(p)
 
 
+def run_flatten_layout(rep):
+    """flatten/unflatten are mutually inverse and commute with grad whatever the MEMORY layout of the leaves (C, Fortran, transposed views, strided)."""
+    import numpy as onp
+
+    import autograd.numpy as anp
+    from autograd import grad
+    from autograd.misc.flatten import flatten
+    W = onp.arange(6.0).reshape(2, 3) * 0.5 + 0.25
+    vals = {"C": W, "F": onp.asfortranarray(W), "T": onp.arange(6.0).reshape(3, 2).T * 0.5 + 0.25, "strided": onp.arange(24.0).reshape(4, 6)[::2, ::2] * 0.5}
+    for lay, leaf in vals.items():
+        v = {"w": leaf, "b": [onp.array([1.0, 2.0]), 3.0]}
+        flat, unflatten = flatten(v)
+        back = unflatten(flat)
+        exp_flat = onp.concatenate([onp.array([1.0, 2.0]), onp.array([3.0]), onp.asarray(leaf).ravel()])   # keys sorted: b, w; C order
+        ok1 = onp.array_equal(back["w"], leaf) and onp.array_equal(flat, exp_flat)
+        f = lambda p: anp.sum(p["w"] * onp.arange(1.0, 7.0).reshape(2, 3)) + p["b"][0][1] * 2 + p["b"][1]
+        g1 = flatten(grad(f)(v))[0]
+        g2 = grad(lambda z: f(unflatten(z)))(flat)
+        ok2 = onp.array_equal(g1, g2)
+        for cl, ok in (("K-flatten-roundtrip", ok1), ("K-flatten-commutes", ok2)):
+            rep.bounded_case((f"flatten-layout-{lay}", cl))
+            if not ok:
+                rep.violation(f"E4:{cl}", f"flatten-layout-{lay}", f"leaf with {lay} memory layout: flatten gives {flat}, unflatten(flatten)['w'] = {back['w'].tolist()}, grad commutes: {ok2}",
+                              replay=dict(module="contracts.containers", label=f"flatten-layout-{lay}"), witness=True)
+
+
 def run_exact(rep, tier, clauses=("K-value", "K-structure", "K-leafwise", "K-jvp", "K-flatten-roundtrip", "K-flatten-commutes")):
     import multiprocessing as mp
     rep.bound(f"container exact runs: {len(CONTAINER_CASES)} programs over nested tuples/lists/dicts (depth <= 3) of exact symbolic scalars and small arrays")
@@ -373,6 +410,13 @@ def run_exact(rep, tier, clauses=("K-value", "K-structure", "K-leafwise", "K-jvp
 
 
 def replay(spec):
+    if "label" in spec and spec["label"].startswith("flatten-layout"):
+        from vlib.common import Report
+        r = Report("replay", "quick", "other", "replay")
+        r.known = {"findings": []}
+        run_flatten_layout(r)
+        bad = [v for v in r.violations if v["case"] == spec["label"]]
+        return (not bad), (bad[0]["what"] if bad else "holds"), "flatten is a C-order gather of every leaf, inverse to unflatten"
     if "label" in spec:
         for c in CONTAINER_CASES:
             if c[0] == spec["label"]:
